@@ -31,7 +31,7 @@ def gen(ctx, quick):
 
 def report(ctx, binpath, case, finding, searched):
     kind = finding["kind"]
-    small = rpclib.shrink(ctx, binpath, case, kind)
+    small = rpclib.shrink(ctx, binpath, case, kind, what=finding["what"])
     f2, _, o2 = rpclib.evaluate(ctx, binpath, [dict(small)], tag="fin")
     obj = dict(property="C15", kind=("oracle / measured bound fails on the implementation" if kind == "concrete"
                                      else "correspondence Rpc.Corr broken (model coq/theories/Rpc/Model.v vs rpc/wire.go, rpc/client.go)"),
